@@ -319,10 +319,16 @@ fn run_case(c: &Case, rep: &mut Report) {
         // ... and the closure LOOKS AT THE BUS (the application watches the traffic, or drives another sign, while its pages
         // are being pulled): a lazy page list runs between the controller's bus calls, never inside one
         let peeks = std::cell::Cell::new(0usize);
+        let side_sign = flipdot::Sign::new(Rc::new(RefCell::new(VirtualSignBus::new(vec![VirtualSign::new(flipdot::Address(0x0055), flipdot::PageFlipStyle::Manual)]))), flipdot::Address(0x0055), TYPES[5].ty);
         let r = crate::util::catch(std::panic::AssertUnwindSafe(|| {
             sign.send_pages(pages.iter().filter(|p| {
                 peeks.set(peeks.get() + tb.borrow().log.len().min(1) + 1);
                 let _ = tb.borrow_mut().log.len();
+                // ... and every other list also DRIVES ANOTHER SIGN from in there (a whole configuration through another
+                // controller object on another bus): calls of one controller nest inside a call of another
+                if h % 2 == 0 {
+                    let _ = side_sign.configure();
+                }
                 p.width() < u32::MAX
             }))
         }));
